@@ -59,7 +59,7 @@ ASSUMPTIONS = [
     'c:identifier-prefixes; a field of a named callback type is written as an inline <callback> (only its name is '
     'compared); zero-terminated is compared as written (absent = 0); pointer-ness of basic types, c:type, instance '
     'parameters and instance transfer have no spelling in the output and are not compared; float/double constants are '
-    'compared to 6 decimals (%f); tab/newline/CR inside attribute values are compared after XML attribute-value '
+    'compared to 6 decimals (%f) and boolean constants as 1/0 = true/false; tab/newline/CR inside attribute values are compared after XML attribute-value '
     'normalisation (the writer leaves them raw, a conforming parser turns them into spaces)',
 ]
 TECHNIQUE = ('differential testing of three readers of the same bytes: property-based generation of valid GIR documents '
@@ -744,14 +744,12 @@ class Gir(object):
     def entry(self, e):
         b = e['blob']
         k = e['blob_type_name']
-        known = self.ctx.known
         if k == 'function':
             return self.function(b)
         if k == 'callback':
             return self.callback(b)
         if k == 'constant':
-            n = self.constant(b)
-            return n
+            return self.constant(b)
         a = {}
         if k == 'boxed':
             a['glib:name'] = b['name']
@@ -850,8 +848,6 @@ def _norm_got_attrs(tag, a):
         a.pop('version', None)
     if tag == 'namespace' and 'c:prefix' in a and 'c:identifier-prefixes' not in a:
         a['c:identifier-prefixes'] = a.pop('c:prefix')
-    if tag == 'constant' and 'value' in a:
-        pass
     return a
 
 
@@ -1352,11 +1348,13 @@ def run_shard(ctx, spec):
     g = grid()
     for j in spec.get('grid', []):
         ctx.hyp(strategy(4, [g[j]]), 2, name='grid')
+    if spec.get('grid'):
+        ctx.extra['grid_shapes_forced'] = len(spec['grid'])
     ctx.hyp(strategy(spec['max_entries'], salt=ctx.shard), spec['n'])
 
 
-_GATES = [('k:function', 0.08), ('k:callback', 0.08), ('k:struct', 0.5), ('k:union', 0.08), ('k:enum', 0.08), ('k:flags', 0.08),
-          ('k:object', 0.8), ('k:interface', 0.8), ('k:constant', 0.08), ('union-fields-and-methods', 0.03),
+_GATES = [('k:function', 0.05), ('k:callback', 0.05), ('k:struct', 0.5), ('k:union', 0.06), ('k:enum', 0.06), ('k:flags', 0.05),
+          ('k:object', 0.8), ('k:interface', 0.8), ('k:constant', 0.06), ('union-fields-and-methods', 0.03),
           ('odd-interface-count', 0.25),
           ('odd-prerequisite-count', 0.5), ('rich-compound', 1.0), ('struct-field-callback', 0.4),
           ('struct-field-callback-before-methods', 0.3), ('object-field-callback-before-sections', 0.06), ('enum-methods', 0.08),
@@ -1370,7 +1368,7 @@ def health(agg, tier):
     lab = agg['labels']
     n = max(1, lab.get('typelibs', 0))
     probs = []
-    if n < (200 if tier == 'quick' else 30000):
+    if n < (200 if tier == 'quick' else 25000):
         probs.append('only %d typelibs checked' % n)
     for name, frac in _GATES:
         if lab.get(name, 0) < frac * n:
